@@ -20,6 +20,8 @@
 //   req  method kind tshape tseed nhdr hseed blen bkind bseed [plan rsize rank chain delays]   (the [..] part only in `pipeline`)
 //   cut  kind r off gap
 //   tail kind k flags nbody      an incomplete last request: valid head, extreme / unsatisfiable Content-Length (build_tail)
+//   life kind early flags gap    (`pipeline`) the ops that follow belong to the next life of the same Server object:
+//                                kind 0 = cleanup() + initialize() + use() + start(), 1 = stop() + start()
 //   seg  b0 b1 b2 ...                                                               (only in `parser_total`)
 #define VERIF_MAIN
 #include "../common/verif.h"
@@ -70,7 +72,7 @@ std::string printable(const std::string &s, size_t max = 60) {
   return o;
 }
 
-enum { CFG, REQ, CUT, SEG, TAIL };
+enum { CFG, REQ, CUT, SEG, TAIL, LIFE };
 const char *kMethods[7] = {"GET", "HEAD", "PUT", "POST", "TRACE", "OPTIONS", "DELETE"};
 const Method kMethodEnum[7] = {Method::kGet, Method::kHead, Method::kPut, Method::kPost, Method::kTrace, Method::kOptions, Method::kDelete};
 const int kMaxReq = 6, kMaxCuts = 48;
@@ -367,15 +369,15 @@ Parsed split_ops(const Scenario &s) {
   return r;
 }
 
-Pipe build_pipe(const Parsed &ps, bool with_id, size_t max_dense) {
+Pipe build_pipe(const Parsed &ps, bool with_id, size_t max_dense, int id_base = 0) {
   Pipe p;
   for (size_t i = 0; i < ps.reqs.size(); ++i) {
-    p.reqs.push_back(build_request(*ps.reqs[i], (int)i, with_id));
+    p.reqs.push_back(build_request(*ps.reqs[i], id_base + (int)i, with_id));
     p.start.push_back(p.wire.size());
     p.wire += p.reqs.back().wire;
   }
   if (ps.tail && !p.reqs.empty()) {
-    Tail t = build_tail(*ps.tail, (int)p.reqs.size(), with_id);
+    Tail t = build_tail(*ps.tail, id_base + (int)p.reqs.size(), with_id);
     p.tail_off = p.wire.size(); p.tail_wire = t.wire; p.tail_declared = t.declared; p.tail_head = t.head; p.tail_body = t.body; p.tail_kind = t.kind;
     p.wire += t.wire;
   }
@@ -604,9 +606,83 @@ char body_byte(int id, size_t j) { return (char)((id * 131 + j * 7 + j / 251) & 
 
 std::string run_pipeline(const Scenario &s, CaseInfo &info) {
   static bool once = [] { signal(SIGPIPE, SIG_IGN); struct rlimit rl; if (getrlimit(RLIMIT_NOFILE, &rl) == 0) { rl.rlim_cur = rl.rlim_max; setrlimit(RLIMIT_NOFILE, &rl); } return true; }(); (void)once;
-  Parsed ps = split_ops(s);
-  if (ps.reqs.empty()) return "";
-  Pipe p = build_pipe(ps, true, 160);
+  // ---- lives of the one Server object: a `life kind early flags gap` op starts the next life (at most 3)
+  struct LifeOps { Parsed ps; int kind = 0, early = 0, flags = 0, gap = 0; };
+  std::vector<LifeOps> lives(1);
+  const Op *cfg_op = nullptr;
+  for (auto &op : s.ops) {
+    LifeOps &cur = lives.back();
+    if (op.code == CFG && !cfg_op) cfg_op = &op;
+    else if (op.code == REQ && (int)cur.ps.reqs.size() < kMaxReq) cur.ps.reqs.push_back(&op);
+    else if (op.code == CUT && (int)cur.ps.cuts.size() < kMaxCuts) cur.ps.cuts.push_back(&op);
+    else if (op.code == TAIL && !cur.ps.tail) cur.ps.tail = &op;
+    else if (op.code == LIFE && !cur.ps.reqs.empty() && lives.size() < 3) {
+      LifeOps n; n.kind = (int)op.in(0, 0, 1); n.early = (int)op.in(1, 0, 60); n.flags = (int)op.in(2, 0, 7); n.gap = (int)op.in(3, 0, 3);
+      lives.push_back(n);
+    }
+  }
+  if (lives.back().ps.reqs.empty()) lives.pop_back();
+  if (lives.empty()) return "";
+  for (auto &l : lives) l.ps.cfg = cfg_op;
+  if (kAvoid_close_with_pending_output)
+    for (auto &l : lives) {
+      int cp = -1; bool pending = false; size_t bytes = 0;
+      for (size_t i = 0; i < l.ps.reqs.size() && cp < 0; ++i) { pending |= l.ps.reqs[i]->in(9, 0, 41) > 0; bytes += (size_t)l.ps.reqs[i]->in(10, 0, 200 * 1024); if (l.ps.reqs[i]->in(1, 0, 5) >= 3) cp = (int)i; }
+      if (cp >= 0 && (pending || bytes > 60000)) { stats().counters["avoided_close_with_pending_output"]++; return ""; }
+    }
+  const Parsed &ps0 = lives[0].ps;
+
+  // ---- objects that live through the whole case
+  vloop::Clock clk;
+  std::unique_ptr<tbox::event::Loop> loop(tbox::event::Loop::New());
+  std::unique_ptr<tbox::http::server::Server> srv(new tbox::http::server::Server(loop.get()));
+  char path[64]; snprintf(path, sizeof path, "c12-%d.sock", (int)getpid());
+  const int nst = ps0.cfg ? 1 + (int)ps0.cfg->in(2, 0, 3) : 1;
+  int cur_pass = 0;
+  std::vector<Held> held;
+  std::vector<Deferred> deferred;
+  std::string err;                        // first oracle violation
+  auto fail = [&](const std::string &m) { if (err.empty()) err = m; };
+  // the callbacks registered with Server::use() stay registered over stop()/start(); they forward to the current life
+  std::function<void(int, tbox::http::server::ContextSptr, const tbox::http::server::NextFunc &)> stage_fn;
+  auto install_stages = [&]() {
+    for (int st = 0; st < nst; ++st)
+      srv->use([&stage_fn, &fail, st](tbox::http::server::ContextSptr ctx, const tbox::http::server::NextFunc &next) {
+        if (stage_fn) stage_fn(st, std::move(ctx), next); else fail("a request callback was invoked while no connection of the current life exists");
+      });
+  };
+  auto listen = [&]() { return srv->initialize(tbox::network::SockAddr(tbox::network::DomainSockPath(path)), 4); };
+  bool carried_released_later = false;
+  int open_cfd = -1;                      // client socket of the current / previous life while it is still open
+
+  for (size_t life_no = 0; life_no < lives.size() && err.empty(); ++life_no) {
+  const LifeOps &lo = lives[life_no];
+  const Parsed &ps = lo.ps;
+  const int id_base = (int)life_no * 16;
+  // ---- bring the server into this life
+  if (life_no == 0) {
+    if (!listen()) return "INFRA: cannot listen on unix socket " + std::string(path);
+    install_stages();
+    if (!srv->start()) return "INFRA: cannot start the server";
+  } else if (lo.kind == 0) {
+    srv->cleanup();
+    if (open_cfd >= 0) { ::close(open_cfd); open_cfd = -1; }
+    if (lo.gap) vloop::passes(loop.get(), lo.gap);
+    if (!listen()) { fail("life " + std::to_string(life_no + 1) + ": initialize() after cleanup() failed"); break; }
+    install_stages();
+    if (!srv->start()) { fail("life " + std::to_string(life_no + 1) + ": start() after cleanup() + initialize() failed"); break; }
+  } else {
+    srv->stop();
+    if (open_cfd >= 0) { ::close(open_cfd); open_cfd = -1; }
+    if (lo.gap) vloop::passes(loop.get(), lo.gap);
+    if (!srv->start()) { fail("life " + std::to_string(life_no + 1) + ": start() after stop() failed"); break; }
+  }
+  const std::string life_tag = lives.size() > 1 ? "life " + std::to_string(life_no + 1) + " of " + std::to_string(lives.size()) + (life_no == 0 ? "" : lo.kind == 0 ? " (after cleanup/initialize/use/start)" : " (after stop/start)") + ": " : "";
+  // a life that is followed by another one may be cut short at a generated pass (handlers still pending)
+  const int cut_at = life_no + 1 < lives.size() ? lives[life_no + 1].early : 0;
+  bool cut_short = false;
+
+  Pipe p = build_pipe(ps, true, 160, id_base);
   const int nreq = (int)p.reqs.size();
   int close_pos = -1;
   for (int i = 0; i < nreq; ++i) if (p.reqs[i].closing) { close_pos = i; break; }
@@ -618,17 +694,11 @@ std::string run_pipeline(const Scenario &s, CaseInfo &info) {
     Plan pl{(int)op->in(9, 0, 41), (size_t)op->in(10, 0, 200 * 1024), (int)op->in(11, 0, 7)};
     plan.push_back(pl); total_resp += pl.rsize; max_k = std::max(max_k, pl.k);
   }
-  if (kAvoid_close_with_pending_output && close_pos >= 0) {
-    bool pending = false; size_t bytes = 0;
-    for (int i = 0; i <= close_pos; ++i) { pending |= plan[i].k > 0; bytes += plan[i].rsize; }
-    if (pending || bytes > 60000) { stats().counters["avoided_close_with_pending_output"]++; return ""; }
-  }
   // handler chain: cfg a2 = stages - 1; req a12 = one base-6 digit per stage (action), a13 = one base-8 digit per stage (delay - 1)
   //   stage before the last: 0/5 next() inside the callback, 1 answer here, 2 keep the NextFunc and call it d passes later,
   //                          3 the same and keep the ContextSptr as well, 4 next() inside the callback, then keep the context d passes
   //   last stage:            0/1/4 answer, 2/3 keep the NextFunc (and context), call it d passes later (nothing follows: default
   //                          404), 5 call next() inside the callback (default 404)
-  const int nst = ps.cfg ? 1 + (int)ps.cfg->in(2, 0, 3) : 1;
   struct Chain { int act[4]; int delay[4]; int answer; bool defers; };
   std::vector<Chain> chain;
   int max_defer = 0;
@@ -659,20 +729,10 @@ std::string run_pipeline(const Scenario &s, CaseInfo &info) {
   { size_t from = 0; for (size_t c : p.cuts) { auto g = p.gap.find(c); segs.push_back({from, c, g == p.gap.end() ? 0 : g->second}); from = c; } segs.push_back({from, p.wire.size(), 0}); }
   int total_gap = 0; for (auto &sg : segs) total_gap += sg.gap + 4;
 
-  vloop::Clock clk;
-  std::unique_ptr<tbox::event::Loop> loop(tbox::event::Loop::New());
-  std::unique_ptr<tbox::http::server::Server> srv(new tbox::http::server::Server(loop.get()));
-  char path[64]; snprintf(path, sizeof path, "c12-%d.sock", (int)getpid());
-  if (!srv->initialize(tbox::network::SockAddr(tbox::network::DomainSockPath(path)), 4) || !srv->start())
-    return "INFRA: cannot listen on unix socket " + std::string(path);
-
-  int cur_pass = 0, arrivals = 0;
-  std::vector<Held> held;
+  int arrivals = 0;
+  cur_pass = 0;
+  auto fail = [&](const std::string &m) { if (err.empty()) err = life_tag + m; };
   std::vector<int> completed_order;      // request indices in handler-completion order
-  std::string err;                        // first oracle violation
-  auto fail = [&](const std::string &m) { if (err.empty()) err = m; };
-
-  std::vector<Deferred> deferred;
   std::map<const void*, int> ctx_idx;     // context object -> request index (set at hand-over)
   std::vector<int> progress;              // per request: next stage expected to run
   bool chain_deferred = false, chain_early_answer = false, chain_fallthrough = false, chain_keep_ctx = false, chain_next_only = false;
@@ -680,15 +740,16 @@ std::string run_pipeline(const Scenario &s, CaseInfo &info) {
   auto release = [&](size_t i) {
     Held h = std::move(held[i]); held.erase(held.begin() + i);
     if (h.counts) completed_order.push_back(h.idx);
+    if (h.idx < 0) carried_released_later = true;   // a context of an earlier life, released while a later life runs
     h.ctx.reset();                        // possibly the last reference: the response is committed then
   };
   auto answer = [&](int idx, int st, tbox::http::server::ContextSptr ctx) {
     auto &res = ctx->res();
     res.status_code = tbox::http::StatusCode::k200_OK;
-    res.headers["X-Id"] = std::to_string(idx);
+    res.headers["X-Id"] = std::to_string(id_base + idx);
     res.headers["X-Stage"] = std::to_string(st);
     res.body.resize(plan[idx].rsize);
-    for (size_t j = 0; j < res.body.size(); ++j) res.body[j] = body_byte(idx, j);
+    for (size_t j = 0; j < res.body.size(); ++j) res.body[j] = body_byte(id_base + idx, j);
     if (plan[idx].k == 0) { completed_order.push_back(idx); return; }   // completes inside the callback
     held.push_back({cur_pass + plan[idx].k, plan[idx].rank, idx, plan[idx].k == 41, true, std::move(ctx)});
   };
@@ -709,7 +770,7 @@ std::string run_pipeline(const Scenario &s, CaseInfo &info) {
         return;
       }
       auto it = rq.headers.find("X-Req");
-      if (it == rq.headers.end() || it->second != std::to_string(idx))
+      if (it == rq.headers.end() || it->second != std::to_string(id_base + idx))
         fail("hand-over " + std::to_string(idx) + " delivered the request with X-Req '" + (it == rq.headers.end() ? "<none>" : printable(it->second)) + "' (requests reach the handler out of order or damaged)");
       std::string d = request_diff(rq, p.reqs[idx]);
       if (!d.empty()) fail("request " + std::to_string(idx) + " as handed to the handler: " + d);
@@ -735,13 +796,13 @@ std::string run_pipeline(const Scenario &s, CaseInfo &info) {
     next();
     if (x == 4) held.push_back({cur_pass + c.delay[st], plan[idx].rank, idx, false, false, std::move(ctx)});
   };
-  for (int st = 0; st < nst; ++st)
-    srv->use([&stage, st](tbox::http::server::ContextSptr ctx, const tbox::http::server::NextFunc &next) { stage(st, std::move(ctx), next); });
+  stage_fn = stage;
 
   // ---- client
   int cfd = ::socket(AF_UNIX, SOCK_STREAM | SOCK_NONBLOCK | SOCK_CLOEXEC, 0);
   struct sockaddr_un sa; memset(&sa, 0, sizeof sa); sa.sun_family = AF_UNIX; strncpy(sa.sun_path, path, sizeof sa.sun_path - 1);
   if (cfd < 0 || ::connect(cfd, (struct sockaddr*)&sa, sizeof sa) != 0) { if (cfd >= 0) ::close(cfd); return "INFRA: cannot connect to " + std::string(path); }
+  open_cfd = cfd;
 
   size_t seg_i = 0, seg_off = 0; int send_at = 0, wait_drain = 0; bool tx_dead = false;
   std::string rx; size_t rx_parsed = 0; bool rx_closed = false; int close_errno = 0;
@@ -795,9 +856,9 @@ std::string run_pipeline(const Scenario &s, CaseInfo &info) {
              (chain[j].defers ? " after a deferred next() (answered before its handler chain was through?)" : ""));
         return;
       }
-      if (id != std::to_string(j)) { fail("response " + std::to_string(j) + " on the wire carries X-Id " + id + " (responses out of request order, duplicated or lost); handlers completed in order " + [&] { std::string o; for (int x : completed_order) o += std::to_string(x) + " "; return o; }()); return; }
+      if (id != std::to_string(id_base + j)) { fail("response " + std::to_string(j) + " on the wire carries X-Id " + id + ", X-Id " + std::to_string(id_base + j) + " was due (responses out of request order, duplicated or lost); handlers completed in order " + [&] { std::string o; for (int x : completed_order) o += std::to_string(x) + " "; return o; }()); return; }
       if ((size_t)clen != plan[j].rsize) { fail("response " + std::to_string(j) + " has Content-Length " + std::to_string(clen) + ", handler set " + std::to_string(plan[j].rsize) + " bytes"); return; }
-      for (size_t k = 0; k < (size_t)clen; ++k) if (rx[he + 4 + k] != body_byte(j, k)) { fail("response " + std::to_string(j) + ": body byte " + std::to_string(k) + " of " + std::to_string(clen) + " is not what the handler wrote"); return; }
+      for (size_t k = 0; k < (size_t)clen; ++k) if (rx[he + 4 + k] != body_byte(id_base + j, k)) { fail("response " + std::to_string(j) + ": body byte " + std::to_string(k) + " of " + std::to_string(clen) + " is not what the handler wrote"); return; }
       ++responses;
       rx_parsed = he + 4 + (size_t)clen;
       if (rx_parsed > (1 << 16)) { rx.erase(0, rx_parsed); rx_parsed = 0; }
@@ -860,6 +921,7 @@ std::string run_pipeline(const Scenario &s, CaseInfo &info) {
       parse_responses();
     }
     if (!err.empty()) return false;
+    if (cut_at > 0 && pass >= cut_at) { cut_short = true; return false; }
     // 4. done?
     bool tx_done = tx_dead || seg_i >= segs.size();
     if (rx_closed && held.empty() && deferred.empty()) return false;
@@ -875,11 +937,11 @@ std::string run_pipeline(const Scenario &s, CaseInfo &info) {
     std::string e = "handler called without end (" + std::to_string(arrivals) + " hand-overs for " + std::to_string(nreq) + " requests" + (p.tail_kind ? ", incomplete last request with Content-Length " + p.tail_declared : "") + "): the server's receive loop does not terminate; first violation: " + err;
     deferred.clear(); held.clear();
     (void)srv.release(); (void)loop.release(); ::close(cfd);
-    return e;
+    return life_tag + e;
   }
 
-  // ---- verdict
-  if (err.empty()) {
+  // ---- verdict (a life that was cut short is only judged by what had arrived: order, ids, content)
+  if (err.empty() && !cut_short) {
     std::string order; for (int x : completed_order) order += std::to_string(x) + " ";
     if (rx_parsed < rx.size() && responses >= N) fail(std::to_string(rx.size() - rx_parsed) + " bytes follow the last expected response: '" + printable(rx.substr(rx_parsed), 40) + "'");
     else if (responses < N) {
@@ -893,15 +955,22 @@ std::string run_pipeline(const Scenario &s, CaseInfo &info) {
     else if (rx_parsed < rx.size()) fail(std::to_string(rx.size() - rx_parsed) + " stray bytes at the end of the client stream");
   }
 
-  // ---- teardown (pending handlers first: a Context must not outlive its server)
+  // ---- end of this life.  Kept NextFuncs are dropped uncalled (a stage that gives up).  Pending contexts are either
+  //      released now or carried into the next life (released there when due / at a hand-over, or at the very end): the
+  //      server must drop their responses - their connection is gone - and nothing of them may show up on a later
+  //      connection.  The client closes its socket before the server is stopped / cleaned up, or afterwards.
+  const bool last_life = life_no + 1 == lives.size();
+  const int nflags = last_life ? 0 : lives[life_no + 1].flags;
+  const bool carry = !last_life && (nflags & 1), client_first = !last_life && (nflags & 2);
+  // (requests that were already on their way may still be handed over during these two passes)
+  if (client_first) { ::close(cfd); open_cfd = -1; if (nflags & 4) vloop::passes(loop.get(), 2); }
+  stage_fn = nullptr;
   deferred.clear();
-  while (!held.empty()) release(0);
-  srv->cleanup();
-  srv.reset();
-  ::close(cfd);
-  vloop::passes(loop.get(), 3);    // deferred deletions queued by the server / connections
-  loop.reset();
-  ::unlink(path);
+  const bool had_pending = !held.empty();
+  if (!last_life) {
+    if (!carry) while (!held.empty()) release(0);
+    else for (auto &h : held) { h.due = std::max(0, h.due - cur_pass); h.counts = false; h.idx = -1; }
+  }
 
   // ---- classes
   bool out_of_order = false;
@@ -925,7 +994,24 @@ std::string run_pipeline(const Scenario &s, CaseInfo &info) {
   info.cls_if(N >= 3, "three_or_more_answered"); info.cls_if(segs.size() > 1, "segmented");
   info.cls_if(p.cut_method || p.cut_hname || p.cut_crlf, "cut_inside_method_or_header_line");
   info.cls_if(close_errno != 0, "close_seen_as_ECONNRESET");
-  info.nontrivial = N >= 3 && out_of_order && close_pos >= 0 && close_pos + 1 < nreq;
+  info.cls_if(lives.size() >= 2, "two_or_more_lives_of_the_server_object"); info.cls_if(lives.size() >= 3, "three_lives");
+  info.cls_if(life_no > 0 && lo.kind == 0, "life_after_cleanup_initialize_use_start"); info.cls_if(life_no > 0 && lo.kind == 1, "life_after_stop_start");
+  info.cls_if(cut_short && had_pending, "life_cut_short_with_pending_handlers");
+  info.cls_if(carry && had_pending, "contexts_carried_into_the_next_life"); info.cls_if(!last_life && client_first, "client_closes_before_the_server_stops");
+  info.nontrivial = info.nontrivial || (N >= 3 && out_of_order && close_pos >= 0 && close_pos + 1 < nreq);
+  }  // for each life
+
+  // ---- final teardown (pending contexts first: a Context must not outlive its server)
+  stage_fn = nullptr;
+  deferred.clear();
+  while (!held.empty()) { held.back().ctx.reset(); held.pop_back(); }
+  srv->cleanup();
+  srv.reset();
+  if (open_cfd >= 0) ::close(open_cfd);
+  vloop::passes(loop.get(), 3);    // deferred deletions queued by the server / connections
+  loop.reset();
+  ::unlink(path);
+  info.cls_if(carried_released_later, "contexts_of_an_earlier_life_released_in_a_later_life");
   return err;
 }
 
@@ -961,15 +1047,10 @@ Scenario expand_segmentation(int64_t seed) {
   return sc;
 }
 
-Scenario expand_pipeline(int64_t seed) {
-  Rng g((uint64_t)seed);
-  Scenario sc; auto &v = sc.ops;
-  int nreq = (int)g.pick({{1, 1}, {2, 2}, {3, 3}, {4, 4}, {3, 5}, {3, 6}});
+// one life of the server object: a connection with its pipeline (requests, optional incomplete tail, cuts)
+void gen_pipeline_life(Rng &g, std::vector<Op> &v, int nst, bool later_life) {
+  int nreq = later_life ? (int)g.pick({{3, 1}, {3, 2}, {2, 3}, {1, 4}}) : (int)g.pick({{1, 1}, {2, 2}, {3, 3}, {4, 4}, {3, 5}, {3, 6}});
   int close_pos = g.chance(30) ? -1 : (nreq >= 4 && g.chance(60)) ? (int)g.in(2, nreq - 2) : (g.chance(60) && nreq > 1) ? (int)g.in(0, nreq - 2) : (int)g.in(0, nreq - 1);
-  const int nst = (int)g.pick({{3, 1}, {4, 2}, {2, 3}, {1, 4}});
-  v.push_back(mk(CFG, {g.pick({{7, 0}, {1, 1}, {2, 2}}), g.in(1, 64), nst - 1, g.pick({{2, 0}, {1, 1}, {1, 2}}),
-                       g.pick({{1, 1}, {2, -1}, {2, -2}}) , g.in(0, 60), g.in(0, 30)}));
-  if (v.back().a[4] == -1) v.back().a[4] = g.in(2, 4096); else if (v.back().a[4] == -2) v.back().a[4] = g.in(4097, 65536);
   bool all_sync = g.chance(10);
   for (int i = 0; i < nreq; ++i) {
     std::vector<int64_t> a;
@@ -980,6 +1061,7 @@ Scenario expand_pipeline(int64_t seed) {
     if (k == -1) k = g.in(1, 6); else if (k == -2) k = g.in(7, 40);
     int64_t rs = g.pick({{3, 0}, {5, -1}, {2, -2}, {2, -3}});
     if (rs == -1) rs = g.in(1, 300); else if (rs == -2) rs = g.in(301, 70000); else if (rs == -3) rs = g.in(70001, 200 * 1024); else rs = 0;
+    if (later_life && rs > 70000 && g.chance(60)) rs = g.in(0, 2000);
     a.push_back(k); a.push_back(rs); a.push_back(g.in(0, 7));
     // handler chain: action and delay digit per stage (see run_pipeline)
     int64_t acts = 0, delays = 0, mul6 = 1, mul8 = 1;
@@ -994,7 +1076,25 @@ Scenario expand_pipeline(int64_t seed) {
   }
   bool tail = g.chance(close_pos < 0 ? 45 : 10);
   if (tail) gen_tail(g, v);
-  gen_cuts(g, v, nreq, 8);
+  gen_cuts(g, v, nreq, later_life ? 4 : 8);
+}
+
+Scenario expand_pipeline(int64_t seed) {
+  Rng g((uint64_t)seed);
+  Scenario sc; auto &v = sc.ops;
+  const int nst = (int)g.pick({{3, 1}, {4, 2}, {2, 3}, {1, 4}});
+  v.push_back(mk(CFG, {g.pick({{7, 0}, {1, 1}, {2, 2}}), g.in(1, 64), nst - 1, g.pick({{2, 0}, {1, 1}, {1, 2}}),
+                       g.pick({{1, 1}, {2, -1}, {2, -2}}) , g.in(0, 60), g.in(0, 30)}));
+  if (v.back().a[4] == -1) v.back().a[4] = g.in(2, 4096); else if (v.back().a[4] == -2) v.back().a[4] = g.in(4097, 65536);
+  // 1-3 lives of the one Server object; `life kind early flags gap`: kind 0 = cleanup() + initialize() + use() + start(),
+  // 1 = stop() + start(); early > 0 = the previous life is cut short at that pass (handlers may still be pending);
+  // flags bit0 = pending contexts are carried into this life, bit1 = the client closes before the server is stopped,
+  // bit2 = with two loop passes in between; gap = loop passes between stop()/cleanup() and the restart
+  const int nlives = (int)g.pick({{11, 1}, {6, 2}, {3, 3}});
+  for (int l = 0; l < nlives; ++l) {
+    if (l > 0) v.push_back(mk(LIFE, {g.pick({{3, 0}, {2, 1}}), g.pick({{1, 0}, {1, -1}}) < 0 ? g.in(1, 25) : 0, g.in(0, 7), g.pick({{2, 0}, {1, -1}}) < 0 ? g.in(1, 3) : 0}));
+    gen_pipeline_life(g, v, nst, l > 0);
+  }
   return sc;
 }
 
@@ -1078,6 +1178,10 @@ Scenario expand_total(int64_t seed) {
 rc::Gen<Scenario> shrinkable(rc::Gen<Scenario> base, bool bytes) {
   return rc::gen::shrink(std::move(base), [bytes](const Scenario &s) {
     std::vector<Scenario> out;
+    // bounded shrinking effort: this function runs once per accepted shrink step; a counter-example that is still
+    // not minimal after 400 steps is reported as it is (a process only ever shrinks one failure)
+    static int accepted_steps = 0;
+    if (++accepted_steps > 400) return rc::seq::fromContainer(std::move(out));
     size_t n = s.ops.size();
     for (size_t chunk = n / 2; chunk >= 1; chunk /= 2) {
       for (size_t at = 0; at + chunk <= n; at += chunk) {
@@ -1100,10 +1204,14 @@ rc::Gen<Scenario> shrinkable(rc::Gen<Scenario> base, bool bytes) {
     } else {
       for (size_t i = 0; i < n; ++i)
         for (size_t k = 0; k < s.ops[i].a.size(); ++k) {
+          // 0, v/2, v - v/4, v - v/8, ..., v - 1: the first candidate that still fails is the smallest one beyond the
+          // threshold, so an argument converges in O(log v) accepted steps (a plain "v - 1" candidate made the shrinker
+          // walk down a 200 KiB response size one byte at a time: thousands of steps on a tree with a size-dependent fault)
           int64_t v = s.ops[i].a[k];
-          if (v != 0) { Scenario t = s; t.ops[i].a[k] = 0; out.push_back(std::move(t)); }
-          if (v > 1) { Scenario t = s; t.ops[i].a[k] = v / 2; out.push_back(std::move(t)); }
-          if (v > 2) { Scenario t = s; t.ops[i].a[k] = v - 1; out.push_back(std::move(t)); }
+          if (v == 0) continue;
+          { Scenario t = s; t.ops[i].a[k] = 0; out.push_back(std::move(t)); }
+          if (v < 0) continue;
+          for (int64_t d = v / 2; d >= 1; d /= 2) { Scenario t = s; t.ops[i].a[k] = v - d; out.push_back(std::move(t)); }
         }
     }
     return rc::seq::fromContainer(std::move(out));
@@ -1116,8 +1224,8 @@ rc::Gen<Scenario> from_seed(Scenario (*expand)(int64_t), bool bytes) {
 
 SubDef def_total = [] {
   SubDef d; d.name = "parser_total";
-  d.op_names = {"cfg", "req", "cut", "seg", "tail"};
-  d.op_arity = {0, 0, 0, 8, 0};
+  d.op_names = {"cfg", "req", "cut", "seg", "tail", "life"};
+  d.op_arity = {0, 0, 0, 8, 0, 0};
   d.nt_rule = "the stream was fed in >= 2 segments and the parser got past the start line of a request";
   d.run = run_total;
   d.decode = decode_total;
@@ -1130,8 +1238,8 @@ VERIF_REGISTER(&def_total);
 
 SubDef def_seg = [] {
   SubDef d; d.name = "segmentation";
-  d.op_names = {"cfg", "req", "cut", "seg", "tail"};
-  d.op_arity = {2, 9, 4, 0, 4};
+  d.op_names = {"cfg", "req", "cut", "seg", "tail", "life"};
+  d.op_arity = {2, 9, 4, 0, 4, 0};
   d.nt_rule = "some cut falls inside a method name or inside the header block (header name, header line or between CR and LF)";
   d.run = run_segmentation;
 #ifndef VERIF_ENGINE_FUZZ
@@ -1143,8 +1251,8 @@ VERIF_REGISTER(&def_seg);
 
 SubDef def_pipe = [] {
   SubDef d; d.name = "pipeline";
-  d.op_names = {"cfg", "req", "cut", "seg", "tail"};
-  d.op_arity = {7, 14, 4, 0, 4};
+  d.op_names = {"cfg", "req", "cut", "seg", "tail", "life"};
+  d.op_arity = {7, 14, 4, 0, 4, 4};
   d.nt_rule = ">= 3 pipelined requests answered, handlers completed out of request order, and a closing request (Connection: close / HTTP/1.0) that is not the last request sent";
   d.run = run_pipeline;
 #ifndef VERIF_ENGINE_FUZZ
